@@ -98,6 +98,9 @@ func c23Check(x *dbx) *vx.Fail {
 	if f := x.compareRange(gotSnap, math.MinInt64, math.MaxInt64, false, "snapshot-restart"); f != nil {
 		return f
 	}
+	if x.light {
+		return nil // non-initial-state search: only the snapshot-vs-WAL differential, no damage sweeps
+	}
 	// damaged / outdated snapshot variants: must equal the WAL restart
 	snapSeg := c04Newest23(snaps[len(snaps)-1])
 	if snapSeg != "" {
@@ -286,7 +289,7 @@ func TestVerifC23(t *testing.T) {
 		c := cfgs[cn]
 		c.Alphabet = "small"
 		name := cn + "@small+starts"
-		res := r.BFSFrom(name, func() vx.Sys { return c23New(r, c, name) }, dbxStarts(c.W), vx.Pick(r, 0, 1))
+		res := r.BFSFrom(name, func() vx.Sys { x := c23New(r, c, name); x.light = true; return x }, dbxStarts(c.W), vx.Pick(r, 1, 2))
 		t.Logf("C23 %s: states=%d transitions=%d", name, res.States, res.Transitions)
 	}
 	r.Assume("exemplar restoration from the snapshot is not covered (no exemplars in the dbx alphabet)")
